@@ -64,6 +64,14 @@ def _kernels():
         except Exception:
             return [-4]
 
+    def hssp_plain(pts, ref, k):
+        """two objectives, large integer coordinates: no +-inf sentinels (1000 is an ordinary coordinate here)"""
+        try:
+            r = _solve_hssp(np.array(pts, dtype=float), np.arange(len(pts)), k, np.array(ref, dtype=float))
+            return [int(x) + 1 for x in r]
+        except Exception:
+            return [-4]
+    hssp.plain = hssp_plain
     return hv, rank, front, hssp
 
 
@@ -171,6 +179,36 @@ def build_events(ctx, hv, rank, front, hssp):
         for k in range(2, len(pts)):
             add({"op": "hssp", "pts": pts, "ref": ref, "k": k, "ret": hssp(pts, ref, k)})
             made += 1
+    # two objectives, integer coordinates in the thousands: geometric "staircase" fronts with near-duplicate points around
+    # some steps (the shape on which a greedy that over-estimates contributions wastes its picks), plus random 2-D fronts
+    n_stair = 520 if ctx.quick else 6000
+    made = 0
+    while made < n_stair:
+        S = rng.choice([2000, 4000])
+        r = rng.choice([0.2, 0.2, 0.25, 0.3])
+        nl = rng.randint(4, 6)
+        d = rng.choice([0.01, 0.02, 0.05])
+        dl = set(rng.choice([[0, 2, 4], [0, 2], [0], [1, 3], [2, 4]]))
+        qs = rng.choice([(1,), (1, 2)])
+        pts = []
+        for t in range(nl):
+            c = 1.0 if t % 2 == 0 else 0.9
+            w, h = S * r ** t, c * S * r ** (nl - 1 - t)
+            pts.append((round(S - w), round(S - h)))
+            if t in dl:
+                for q in qs:
+                    pts.append((round(S - w * (1 + q * d)), round(S - h * (1 - q * d))))
+                    pts.append((round(S - w * (1 - q * d)), round(S - h * (1 + q * d))))
+        if rng.random() < 0.2:      # a few arbitrary (possibly dominated) extras
+            pts += [(rng.randint(0, S), rng.randint(0, S)) for _ in range(rng.randint(1, 2))]
+        pts = [list(p_) for p_ in dict.fromkeys(pts) if -500 <= p_[0] <= S and -500 <= p_[1] <= S]
+        if not 4 <= len(pts) <= 13:
+            continue
+        rng.shuffle(pts)
+        ref = [S, S]
+        for k in range(3, min(len(pts), 7)):
+            add({"op": "hssp2", "pts": pts, "ref": ref, "k": k, "ret": hssp.plain(pts, ref, k)})
+            made += 1
     return events, exhaustive_counts
 
 
@@ -230,6 +268,8 @@ def replay(ctx, data):
         e["ret"] = rank(e["pts"], e["pen"], e["nb"])
     elif e["op"] == "front":
         e["ret"] = front(e["pts"])
+    elif e["op"] == "hssp2":
+        e["ret"] = hssp.plain(e["pts"], e["ref"], e["k"])
     else:
         e["ret"] = hssp(e["pts"], e["ref"], e["k"])
     judge(ctx, [e], "replay")
